@@ -157,6 +157,7 @@ def judge(item):
                                  f"reported flow {sf}:{sl} -> {kf}:{kl} under rule set '{level}' ({txt[0]!s:.60} -> {txt[1]!s:.60}); "
                                  f"sink gadget: {gadget_brief(snk_g)}; source gadget: {gadget_brief(src_g)}",
                                  {"program": case, "level": level, "flow": list(pr)}))
+    c10.cleanup(tag)
     return res
 
 
@@ -276,7 +277,9 @@ def main():
                 chk.count("re-runs with a compensation switch (classification)", 1)
         for item, sig, desc, cs in pending_nodep:
             cured = [sw for sw in switches if (item[0], sw) in cres and tuple(cs["flow"]) not in cres[(item[0], sw)]]
-            if len(cured) == 1:
+            if cured == ["from-code-sink-rule"]:
+                sig = "unjustified:rule-restriction-ignored:unit:from-code-sink-rule"
+            elif len(cured) == 1:
                 sig = sig + ":" + cured[0]
             chk.fail(sig, desc, cs)
     # gadget statistics (what the workload contained)
